@@ -167,6 +167,18 @@ func runC10KMS(t *simrt.Tape, o Opts) Outcome {
 			}
 			handed = nil
 		}
+		for i, r := range regions {
+			if wm>>i&1 == 1 {
+				switch t.Choose(3, "failwhat") {
+				case 0:
+					nodes[r].failGen, nodes[r].failEnc = true, true
+				case 1:
+					nodes[r].failEnc = true
+				case 2:
+					nodes[r].failGen = true
+				}
+			}
+		}
 		blob, err := wrapper.EncryptKey(context.Background(), sk)
 		zero("EncryptKey")
 		if err != nil || len(viols) > 0 {
